@@ -146,7 +146,7 @@ def parse_segments(text, version=None, encoding_chars=None, validation_level=Non
     current_parent = None
     for s in text.split(segment_sep):
         if len(s) > 0:
-            segment_name = s[:3]
+            segment_name = s.strip()[:3]  # the text is stripped when the segment is parsed (e.g. CR LF terminators)
             saved_refs, saved_parent = list(parents_refs), current_parent
             for x in xrange(len(parents_refs)):
                 if not find_groups:
